@@ -179,6 +179,52 @@ def classify_nonfixpoint(t: str, t1: str) -> str:
   return "texts differ only in line ends"
 
 
+def duplicate_members(text: str):
+  """(kind, name, 'class'|'module') of the first name declared twice in one block, else None.
+  Purely textual: `def n(` lines not decorated with @overload, and `n: T` lines."""
+  stack = [(-1, "module", {})]            # (indent of the header, kind, {(kind, name)})
+  decorators = []
+  for line in text.splitlines():
+    if not line.strip():
+      decorators = []
+      continue
+    ind = len(line) - len(line.lstrip(" "))
+    body = line.strip()
+    while len(stack) > 1 and ind <= stack[-1][0]:
+      stack.pop()
+    if body.startswith("@"):
+      decorators.append(body)
+      continue
+    m = re.match(r"class\s+([\w.]+)", body)
+    if m:
+      stack.append((ind, "class", {}))
+      decorators = []
+      continue
+    seen = stack[-1][2]
+    m = re.match(r"def\s+(\w+)\s*\(", body)
+    if m:
+      if not any(d.lstrip("@").split(".")[-1] == "overload" for d in decorators):
+        key = ("method" if stack[-1][1] == "class" else "function", m.group(1))
+        if key in seen:
+          return key[0], key[1], stack[-1][1]
+        seen[key] = True
+      decorators = []
+      # a function body (mutations / raises) is deeper; skip it by treating it as a block
+      if not body.endswith("..."):
+        stack.append((ind, "def", {}))
+      continue
+    decorators = []
+    if stack[-1][1] == "def":
+      continue
+    m = re.match(r"(\w+)\s*:\s*\S", body)
+    if m:
+      key = ("attribute" if stack[-1][1] == "class" else "constant", m.group(1))
+      if key in seen:
+        return key[0], key[1], stack[-1][1]
+      seen[key] = True
+  return None
+
+
 def classify_exception(stage: str, e: BaseException) -> str:
   msg = str(e)
   m = re.search(r"(Duplicate attribute name\(s\) in module): (\w+)", msg)
@@ -520,6 +566,14 @@ def _check_text(text, emitted, unit, pyver, counters):
     d.update(kw)
     out.append(d)
 
+  # a declaration block must not declare one name twice (VerifyVisitor compares name SETS
+  # per category and does not see it; the parser silently merges / keeps the last one)
+  c["duplicate_member_scan"] += 1
+  dup = duplicate_members(t)
+  if dup:
+    kind, name, where = dup
+    v(f"emitted stub declares one {kind} name twice in a {where} body (no @overload)", "dupmember",
+      member=name)
   # parse
   try:
     a0 = parser.parse_string(t, options=opts)
